@@ -5,6 +5,9 @@ C06 lemma library, aggregated:
   `automatonAccepted_agrees`);
 * `GT.Lemmas.RepAutPairs` — matrix k is the image of word k (`accSpec_pairs`, `accepted_pairs`,
   `automatonAccepted_pairs`);
+* `GT.Lemmas.RepAutStar`  — the same for every representation, the words parsed with the
+  representation's own `parse_simple` (`parseWord_joinW`, `accSpec_pairs_g`, `accepted_pairs_g`,
+  `accepted_pairs_nonsimple`, `labelOKg_of_edgeWords`, `labelOKg_of_validNames`);
 * `GT.Lemmas.RepAutLang`  — the words are the label words of the paths, once per path
   (`accepted_words_start`, `accepted_words_end`, `accepted_eq_enumerate`);
 * `GT.Lemmas.RepAutTotal` — when exceptions are raised (`accSpec_total_start`, `accSpec_keyError`,
@@ -16,6 +19,7 @@ Below: concrete instances showing that the hypotheses of the main theorems are s
 import Mathlib.LinearAlgebra.Matrix.Notation
 import GT.Lemmas.RepAutSpec
 import GT.Lemmas.RepAutPairs
+import GT.Lemmas.RepAutStar
 import GT.Lemmas.RepAutLang
 import GT.Lemmas.RepAutFree
 import GT.Lemmas.RepAutTotal
@@ -70,6 +74,12 @@ example : ((r0ns.accepted a0 2 { withWords := true } (some 0) []).toOption.map (
     some ["", "a", "a*a", "a*b"] := by decide
 example : ((r0ns.accepted a0 2 { withWords := true, asStart := false } (some 0) []).toOption.map
     (·.1.words)) = some ["", "a*b"] := by decide
+
+/-! `accepted_pairs_g` / `accepted_pairs_nonsimple`: the label hypothesis holds -/
+example : LabelOKg r0ns { withWords := true } := labelOKg_of_edgeWords r0ns _ rfl
+example : LabelOKg r0ns { withWords := true, edgeWords := false } :=
+  labelOKg_of_validNames r0ns _ rfl rfl (by decide)
+example : parseWord false "a*a" = ["a", "a"] := by decide
 
 /-! the guard of a caller-supplied dict: a dict filled by a `maxlen=True` call records its
 options; the same call with `maxlen=False` on that dict is refused, the same options are served -/
